@@ -342,14 +342,16 @@ impl<Payload: for<'de> Deserialize<'de>> JWT<Payload> {
         let payload_part = parts.next()
             .ok_or_else(Response::Unauthorized)?;
         let payload: Payload = part_value(payload_part)?;
-        let now = crate::util::unix_timestamp();
-        if payload.get("nbf").is_some_and(|nbf| nbf.as_u64().unwrap_or(0) > now) {
+        // A NumericDate is a JSON number that may be negative or
+        // non-integer ( RFC 7519, section 2 ) : compare as `f64`
+        let now = crate::util::unix_timestamp() as f64;
+        if payload.get("nbf").is_some_and(|nbf| nbf.as_f64().unwrap_or(0.) > now) {
             return Err(Response::Unauthorized().with_text(UNAUTHORIZED_MESSAGE))
         }
-        if payload.get("exp").is_some_and(|exp| exp.as_u64().unwrap_or(u64::MAX) <= now) {
+        if payload.get("exp").is_some_and(|exp| exp.as_f64().unwrap_or(f64::INFINITY) <= now) {
             return Err(Response::Unauthorized().with_text(UNAUTHORIZED_MESSAGE))
         }
-        if payload.get("iat").is_some_and(|iat| iat.as_u64().unwrap_or(0) > now) {
+        if payload.get("iat").is_some_and(|iat| iat.as_f64().unwrap_or(0.) > now) {
             return Err(Response::Unauthorized().with_text(UNAUTHORIZED_MESSAGE))
         }
 
